@@ -593,3 +593,90 @@ Fixpoint ref_acn_f (fuel : nat) (blk : option (N * N)) (s : list N) : list msg :
     end
   end.
 Definition ref_acn (s : list N) : list msg := ref_acn_f (Datatypes.S (length s)) None s.
+
+(* ------------------------------------------------------------------ RPC channel (RpcChannel) *)
+(* Correspondence only in this property (the framing theorem for the channel is c09_dispatch in
+   props/C09).  p_hdr = m_header[0 .. m_header_read), p_exp = m_expected_size (0 = waiting for a
+   header), p_rbody = the message bytes received so far in REVERSE order, p_cur = m_current_size.
+   `ok` is the protobuf parser's verdict on a complete body (RpcMessage::ParseFromArray); the buffer
+   (re)allocation is not modelled here.  A delivered message is (second body byte = the type field of
+   the frames the generator builds, body). *)
+Record pstate := { p_hdr : list N; p_exp : N; p_rbody : list N; p_cur : N; p_closed : bool }.
+Definition p_init : pstate := {| p_hdr := []; p_exp := 0; p_rbody := []; p_cur := 0; p_closed := false |}.
+Definition p_close (s : pstate) : pstate :=
+  {| p_hdr := p_hdr s; p_exp := 0; p_rbody := p_rbody s; p_cur := p_cur s; p_closed := true |}.
+Definition rpc_label (body : list N) : N := match body with _ :: t :: _ => t | _ => 0 end.
+(* memcpy(&header, m_header, 4) on a little-endian host; RpcHeader::DecodeHeader *)
+Definition rpc_header (h : list N) : N :=
+  match h with
+  | b0 :: b1 :: b2 :: b3 :: _ => u8 b0 + u8 b1 * 256 + u8 b2 * 65536 + u8 b3 * 16777216
+  | _ => 0
+  end.
+Definition rpc_version (h : N) : N := N.shiftr (N.land h RPC_VERSION_MASK) 28.
+Definition rpc_size (h : N) : N := N.land h RPC_SIZE_MASK.
+
+Section Rpc.
+  Variable ok : list N -> bool.
+
+  (* Receive(m_buffer + m_current_size, m_expected_size - m_current_size) and the completion test *)
+  Definition p_bodyst (s : pstate) (av : list N) : option (pstate * list N * list msg) :=
+    let want := usub32 (p_exp s) (p_cur s) in
+    let k := N.min want (len av) in
+    let got := take k av in
+    let r := drop k av in
+    let cur := p_cur s + k in
+    let rb := rev_append got (p_rbody s) in
+    if cur =? p_exp s then
+      let body := rev rb in
+      if ok body
+      then Some ({| p_hdr := p_hdr s; p_exp := 0; p_rbody := rb; p_cur := cur; p_closed := false |},
+                 r, [(rpc_label body, body)])
+      else Some ({| p_hdr := p_hdr s; p_exp := 0; p_rbody := rb; p_cur := cur; p_closed := true |}, r, [])
+    else Some ({| p_hdr := p_hdr s; p_exp := p_exp s; p_rbody := rb; p_cur := cur; p_closed := false |},
+               r, []).
+
+  (* RpcChannel::DescriptorReady with ReadHeader *)
+  Definition p_recv (s : pstate) (av : list N) : option (pstate * list N * list msg) :=
+    if p_closed s then Some (s, [], [])
+    else if p_exp s =? 0 then
+      let want := 4 - len (p_hdr s) in
+      let k := N.min want (len av) in
+      let h := p_hdr s ++ take k av in
+      let r := drop k av in
+      if len h <? 4
+      then Some ({| p_hdr := h; p_exp := 0; p_rbody := p_rbody s; p_cur := p_cur s; p_closed := false |}, r, [])
+      else
+        let hd := rpc_header h in
+        let s0 := {| p_hdr := []; p_exp := 0; p_rbody := p_rbody s; p_cur := p_cur s; p_closed := false |} in
+        if rpc_size hd =? 0 then Some (s0, r, [])
+        else if negb (rpc_version hd =? RPC_PROTOCOL_VERSION) then Some (p_close s0, r, [])
+        else if RPC_MAX_BUFFER_SIZE <? rpc_size hd then Some (p_close s0, r, [])
+        else p_bodyst {| p_hdr := []; p_exp := rpc_size hd; p_rbody := []; p_cur := 0; p_closed := false |} r
+    else p_bodyst s av.
+
+  (* Reference framer from the wire format: frames of a 4-byte little-endian header (version in the
+     top 4 bits, body size in the low 28) and a body.  Size 0: the frame is empty and skipped; version
+     other than 1, size above 1 MB or an unparsable body: the channel is closed, nothing after it is
+     delivered.  Returns the delivered messages and whether the channel was closed. *)
+  Fixpoint ref_rpc_f (fuel : nat) (s : list N) : list msg * bool :=
+    match fuel with
+    | O => ([], false)
+    | Datatypes.S f =>
+      if len s <? 4 then ([], false)
+      else
+        let hd := rpc_header s in
+        let n := hd mod 268435456 in
+        let v := hd / 268435456 in
+        let r := drop 4 s in
+        if n =? 0 then ref_rpc_f f r
+        else if negb (v =? 1) then ([], true)
+        else if 1048576 <? n then ([], true)
+        else if len r <? n then ([], false)
+        else
+          let body := take n r in
+          if ok body
+          then let (ms, c) := ref_rpc_f f (drop n r) in ((rpc_label body, body) :: ms, c)
+          else ([], true)
+    end.
+  Definition ref_rpc (s : list N) : list msg * bool := ref_rpc_f (Datatypes.S (length s)) s.
+End Rpc.
